@@ -8,6 +8,11 @@
   are the hypotheses `[LawfulIdx N]` (SlacProofs.SeqIdx; satisfiable: SlacProofs.SeqToy, N = Int).
   `off` is STRING_OFFSET (1, or 0 with feature zero_based_strings): `first = off`.  Strings are lists of
   `Char` (Unicode scalar values), so 'ä' and '𝄞' are one position each — that is the content of the property.
+  Observations recorded here (all confirmed on the crate): `unique` does not merge NaN with NaN
+  (`unique_irreflexive`: `==` is not reflexive); `split_csv` silently ignores a separator that is not one ASCII
+  character, e.g. "ä" (`splitCsv_sep_fallback`); the payload of IndexOutOfBounds is the raw position below
+  `first` but the zero-based index beyond the end (`at_below_first` / `at_beyond_last`); `split` with a wrong
+  argument count reports WrongParameterCount(1) although it takes two parameters.
 -/
 import SlacProofs.SeqSearch
 import SlacProofs.SeqSplit
@@ -322,8 +327,7 @@ theorem copy_find_arr (vs : List (Value N)) (hs : vs.length < 2^53) (v : Value N
     obtain ⟨hi, h1, h2⟩ := (findIdx?_eq_some_iff _ _ _).1 hf
     refine ⟨ofNat i, vs[i], find_arr_present off vs v i hi h1 h2, ?_, h1⟩
     rw [copy_arr off vs i 1 (by omega) (by decide)]
-    congr 2
-    rw [List.drop_eq_getElem_cons hi]; simp
+    rw [List.drop_eq_getElem_cons hi]; rfl
 
 theorem at_arr_enumerates_list (vs : List (Value N)) (hs : vs.length < 2^53) :
     (List.range vs.length).map (fun i => at_ off [.arr vs, .num (ofNat i : N)]) = vs.map .ok := by
